@@ -1,4 +1,4 @@
-From GV Require Import C03.Model C03.Spec C03.Proofs C03.Small C03.Examples.
+From GV Require Import C03.Model C03.Spec C03.Proofs C03.Small C03.Examples C03.Yacc3 C03.Yacc3Spec C03.Yacc3Proofs.
 
 Theorem C03_state_mirror_meets_spec : state_mirror_meets_spec_stmt.
 Proof. exact state_mirror_meets_spec. Qed.
@@ -47,3 +47,59 @@ Print Assumptions C03_wf_state_b_sound.
 Theorem C03_prec_consistent_b_sound : prec_consistent_b_sound_stmt.
 Proof. exact prec_consistent_b_sound. Qed.
 Print Assumptions C03_prec_consistent_b_sound.
+
+Theorem C03_yacc_agrees_outside_three_way : yacc_agrees_outside_three_way_stmt.
+Proof. exact yacc_agrees_outside_three_way. Qed.
+Print Assumptions C03_yacc_agrees_outside_three_way.
+
+Theorem C03_sr_cell_spec_is_sr_spec : sr_cell_spec_is_sr_spec_stmt.
+Proof. exact sr_cell_spec_is_sr_spec. Qed.
+Print Assumptions C03_sr_cell_spec_is_sr_spec.
+
+Theorem C03_yacc_disagreement_is_three_way : yacc_disagreement_is_three_way_stmt.
+Proof. exact yacc_disagreement_is_three_way. Qed.
+Print Assumptions C03_yacc_disagreement_is_three_way.
+
+Theorem C03_rr_ok_cellwise : rr_ok_cellwise_stmt.
+Proof. exact rr_ok_cellwise. Qed.
+Print Assumptions C03_rr_ok_cellwise.
+
+Theorem C03_rr_cell_ok_two_unique : rr_cell_ok_two_unique_stmt.
+Proof. exact rr_cell_ok_two_unique. Qed.
+Print Assumptions C03_rr_cell_ok_two_unique.
+
+Theorem C03_mirror_cell : mirror_cell_stmt.
+Proof. exact mirror_cell. Qed.
+Print Assumptions C03_mirror_cell.
+
+Theorem C03_three_way_left_refuted : three_way_left_refuted_stmt.
+Proof. exact three_way_left_refuted. Qed.
+Print Assumptions C03_three_way_left_refuted.
+
+Theorem C03_three_way_nonassoc_refuted : three_way_nonassoc_refuted_stmt.
+Proof. exact three_way_nonassoc_refuted. Qed.
+Print Assumptions C03_three_way_nonassoc_refuted.
+
+Theorem C03_three_way_report_refuted : three_way_report_refuted_stmt.
+Proof. exact three_way_report_refuted. Qed.
+Print Assumptions C03_three_way_report_refuted.
+
+Theorem C03_bison_eq_yacc_outside_three_way : bison_eq_yacc_outside_three_way_stmt.
+Proof. exact bison_eq_yacc_outside_three_way. Qed.
+Print Assumptions C03_bison_eq_yacc_outside_three_way.
+
+Theorem C03_bison_yacc_differ : bison_yacc_differ_stmt.
+Proof. exact bison_yacc_differ. Qed.
+Print Assumptions C03_bison_yacc_differ.
+
+Theorem C03_cell_bison_eq_yacc_outside_three_way : cell_bison_eq_yacc_outside_three_way_stmt.
+Proof. exact cell_bison_eq_yacc_outside_three_way. Qed.
+Print Assumptions C03_cell_bison_eq_yacc_outside_three_way.
+
+Theorem C03_bison_yacc_count_differ : bison_yacc_count_differ_stmt.
+Proof. exact bison_yacc_count_differ. Qed.
+Print Assumptions C03_bison_yacc_count_differ.
+
+Theorem C03_bison_agrees_without_token_prec : bison_agrees_without_token_prec_stmt.
+Proof. exact bison_agrees_without_token_prec. Qed.
+Print Assumptions C03_bison_agrees_without_token_prec.
